@@ -40,7 +40,7 @@ RoundOK(e) ==
   /\ e.sum = SumQ(e.post)
   /\ Expl(e, DOMAIN e.reports \cup (IF e.limit2 # e.limit THEN {0} ELSE {}), [i \in RInsts(e) |-> QOf(e.pre, i)], e.limit)
 EvOK(e) == IF e.k = "round" THEN RoundOK(e) ELSE ReportOK(e)
-TNext == /\ l <= Len(Traces[tr].events) /\ EvOK(Ev)
+TNext == /\ l <= Len(Traces[tr].events) /\ (EvOK(Ev) = TRUE)
          /\ l' = l + 1 /\ UNCHANGED <<tr, limit, q, hist>>
 TSpec == TInit /\ [][TNext]_tvars
 Judge == (l <= Len(Traces[tr].events) /\ ~EvOK(Ev)) => PrintT(<<"REJECT", Traces[tr].id, l>>)
